@@ -255,7 +255,7 @@ def run(ctx):
                 mode, rest = l.split(":", 1)
                 pl = [tuple(int(x) for x in t.split("/")) for t in rest.split()]
                 progs.append(gen_staged(rng.fork(len(progs)), planted=(mode.strip(), pl)))
-        n = 200 if ctx.tier == "quick" else 6000
+        n = 200 if ctx.tier == "quick" else 4000
         if ctx.broken:
             n *= 5
         for i in range(n):
